@@ -122,7 +122,7 @@ func (fv *FV) havocAll(e *Env) {
 func (fv *FV) havocAlloc(e *Env) {
 	old := e.alloc
 	n := fv.s.freshConst("alloc", arrSort(sRef, sBool))
-	fv.s.assume(Term{fmt.Sprintf("(forall ((r Ref)) (! (=> (select %s r) (select %s r)) :pattern ((select %s r))))", old.S, n.S, n.S), sBool})
+	fv.s.assume(Term{fmt.Sprintf("(forall ((r Ref)) (! (=> (select %s r) (select %s r)) :pattern ((select %s r)) :pattern ((select %s r))))", old.S, n.S, n.S, old.S), sBool})
 	e.alloc = n
 }
 
